@@ -5,6 +5,7 @@ CONSTANTS
   Chain <- ChainA
   Head0 <- HeadA
   MaxCrash = 1
+  MaxTries = 3
   Known <- KnownNone
 INVARIANT C21Inv
 INVARIANT C22Inv
